@@ -105,6 +105,26 @@ fn main() {
         let (ok, detail) = rerender_after_failures(&env, "page", "c", 3);
         out.push(serde_json::json!({"scenario": "block_call_fails", "function": "call_block", "ok": ok, "detail": detail}));
     }
+    // --- an included template runs with ITS OWN block table and loaded-template set, also when it defines no block itself
+    {
+        FAIL.store(false, Ordering::SeqCst);
+        let env = env_with(&[
+            ("card", "{% block body %}CARD{% endblock %}"),
+            ("alias", "{% extends 'card' %}"),
+            ("page", "{% block body %}PAGE[{% include 'alias' %}]{% endblock %}"),
+            ("list", "{% for i in [1, 2, 3] %}{% include 'alias' %}{% endfor %}"),
+        ]);
+        for (n, t, want) in [("include_of_blockless_extending_template", "page", "PAGE[CARD]"), ("same_include_repeated_in_a_loop", "list", "CARDCARDCARD")] {
+            let got = env.get_template(t).unwrap().render(()).map_err(|e| e.to_string());
+            out.push(serde_json::json!({"scenario": n, "function": "with_execution_state", "ok": got == Ok(want.to_string()),
+                "detail": format!("rendered {:?}, expected {:?}", got, want)}));
+        }
+        // many missing candidates in one render must not use up the recursion budget
+        let env = env_with(&[("present", "P"), ("rows", "{% for i in range(70) %}{% include ['nope', 'present'] %}{% endfor %}")]);
+        let got = env.get_template("rows").unwrap().render(()).map_err(|e| e.to_string());
+        out.push(serde_json::json!({"scenario": "seventy_includes_with_a_missing_first_candidate", "function": "perform_include", "ok": got == Ok("P".repeat(70)),
+            "detail": format!("rendered {:?}", got.map(|s| s.len()))}));
+    }
     // --- name resolution inside a macro: the frame's own assignments shadow the enclosed variable
     {
         FAIL.store(false, Ordering::SeqCst);
